@@ -8,6 +8,7 @@ import (
 	"github.com/gdamore/tcell/v2/verifrt"
 
 	"verif/hc"
+	"verif/ref/vt"
 )
 
 type c06p struct {
@@ -25,6 +26,60 @@ func (p c06p) String() string {
 }
 
 var c06table []c06p
+var c06rig *rig
+
+// restoredAtReturn replays everything written up to the moment the shutdown call returned
+// into the reference terminal and checks that the terminal was handed back restored (the C04
+// obligations, here under every explored interleaving), and that nothing was written after
+// the tty had been stopped.
+func restoredAtReturn(res *result) string {
+	r := c06rig
+	n, ok := res.ints["blocksAtReturn"]
+	if r == nil || !ok {
+		return ""
+	}
+	t := vt.New(8, 4, nil, vt.Quirks{})
+	stopped := false
+	for _, b := range r.tty.blocks[:n] {
+		switch b.by {
+		case "<stop>":
+			stopped = true
+			continue
+		case "<start>":
+			stopped = false
+			continue
+		}
+		if stopped {
+			return fmt.Sprintf("write-after-stop: %s wrote %q after the tty had been stopped", b.by, b.data)
+		}
+		t.Write(b.data)
+	}
+	if len(t.Errors) > 0 {
+		return "malformed-output: " + t.Errors[0]
+	}
+	switch {
+	case t.AltScreen:
+		return "not-restored: the terminal is still on the alternate screen when the shutdown call returns"
+	case !t.CursorVisible:
+		return "not-restored: the cursor is still hidden when the shutdown call returns"
+	case t.Pen.Fg != (vt.Color{}) || t.Pen.Bg != (vt.Color{}) || t.Pen.Bold || t.Pen.Reverse || t.Pen.UL != 0:
+		return fmt.Sprintf("not-restored: colours/attributes are not reset when the shutdown call returns (%+v)", t.Pen)
+	case t.KeypadApp:
+		return "not-restored: keypad application mode is still on"
+	}
+	for _, m := range []int{1, 1000, 1002, 1003, 1006, 2004, 1004} {
+		if t.Modes[m] {
+			return fmt.Sprintf("not-restored: DEC private mode %d is still set when the shutdown call returns", m)
+		}
+	}
+	if len(t.TitleStack) != 0 {
+		return "not-restored: the saved title was not restored"
+	}
+	if t.PrintsOnMain > 0 {
+		return fmt.Sprintf("not-restored: %d characters of screen content were painted on the terminal's main screen (outside the alternate screen) before the shutdown call returned", t.PrintsOnMain)
+	}
+	return ""
+}
 
 func c06Scenarios() []scenario {
 	es := []int{0, 1, 9, 10}
@@ -74,6 +129,12 @@ func c06prog(ps string, res *result) func() {
 		r := newRig(4, 2)
 		s := r.s
 		// ---- deterministic prologue: reach the requested fill levels ----
+		c06rig = r
+		s.EnableMouse()
+		s.EnablePaste()
+		s.SetContent(0, 0, 'x', nil, tcell.StyleDefault.Foreground(tcell.ColorRed).Bold(true))
+		s.ShowCursor(1, 1)
+		s.Show()
 		for s.HasPendingEvent() {
 			s.PollEvent()
 		}
@@ -97,6 +158,7 @@ func c06prog(ps string, res *result) func() {
 			if p.op == "fini" {
 				s.Fini()
 				res.flags["returned"] = true
+				res.ints["blocksAtReturn"] = len(r.tty.blocks)
 				afterFini(r, res)
 			} else {
 				for cyc := 0; ; cyc++ {
@@ -104,6 +166,9 @@ func c06prog(ps string, res *result) func() {
 						res.fail("Suspend returned %v", err)
 					}
 					res.flags["returned"] = true
+					if _, ok := res.ints["blocksAtReturn"]; !ok {
+						res.ints["blocksAtReturn"] = len(r.tty.blocks)
+					}
 					if left := verifrt.Alive(true); len(left) > 0 {
 						res.fail("after Suspend returned, library goroutines are still alive: %v", left)
 					}
@@ -271,6 +336,9 @@ func c06check(ps string, o verifrt.Outcome, res *result) string {
 	}
 	if !res.flags["returned"] {
 		return "hang-" + p.op + ": shutdown did not complete  [" + p.String() + "]"
+	}
+	if m := restoredAtReturn(res); m != "" {
+		return m + "  [" + p.String() + "]"
 	}
 	return ""
 }
